@@ -212,3 +212,18 @@ def rs_index(lst: Any, i: Any) -> Any:
     if i < 0 or i >= len(lst):
         raise Panic('index-out-of-bounds')
     return lst[i]
+
+
+def rs_collect(it: Any) -> list:
+    return list(_items(it))
+
+
+def rs_to_vec(x: Any) -> list:
+    return list(_items(x))
+
+
+def rs_all(it: Any, f: Callable) -> bool:
+    for v in _items(it):
+        if not f(v):
+            return False
+    return True
